@@ -31,6 +31,8 @@ function ENCOBJ(v){
   return {t:"obj", cls:Object.prototype.toString.call(v)};
 }
 function G(f){ try { return f(); } finally { } }
+// a String object with an own scripted toString (BEH, REG: shared prelude)
+function SOX(id, s, ts){ var o = new String(s); BEH(o, "toString", "ts", ts, id); REG.push([o, {t:"strobjx", id:id}]); return o; }
 function DESC(o, k){
   var d = Object.getOwnPropertyDescriptor(o, k);
   return d === undefined ? undefined : [d.value, d.writable, d.enumerable, d.configurable];
